@@ -770,3 +770,79 @@ func singleStore(al *ssa.Alloc) bool {
 	}
 	return n == 1
 }
+
+func init() { registerRule("R-SIZECAP", true, ruleSizeCap) }
+
+// judgeAbs: like judgeAlloc, but a charge does not count — only an absolute bound does.
+func judgeAbs(p *Program, f *ssa.Function, size ssa.Value, at ssa.Instruction, depth int) (bool, string) {
+	var leaves []sizeLeaf
+	classifyLeaves(p, f, size, at, 0, map[ssa.Value]bool{}, &leaves)
+	for _, lf := range leaves {
+		switch lf.class {
+		case "param":
+			if depth >= 3 {
+				return false, "parameter chain too deep: " + lf.why
+			}
+			prm := lf.v.(*ssa.Parameter)
+			idx := paramIndex(f, prm)
+			n := p.CallGraph().Nodes[f]
+			if idx < 0 || n == nil || len(n.In) == 0 {
+				return false, lf.why + " of a function with no visible callers"
+			}
+			for _, e := range n.In {
+				if e.Site == nil {
+					return false, lf.why + ": caller without a call site"
+				}
+				if cf := e.Caller.Func; cf.Synthetic != "" {
+					if cn := p.CallGraph().Nodes[cf]; cn == nil || len(cn.In) == 0 {
+						continue
+					}
+				}
+				args := e.Site.Common().Args
+				ai := idx
+				if e.Site.Common().IsInvoke() {
+					ai = idx - 1
+				}
+				if ai < 0 || ai >= len(args) {
+					return false, lf.why + ": cannot map argument at " + p.InstrPos(e.Site)
+				}
+				if ok, d := judgeAbs(p, e.Caller.Func, args[ai], e.Site, depth+1); !ok {
+					return false, lf.why + " <- " + fnKey(e.Caller.Func) + ": " + d
+				}
+			}
+		default:
+			return false, lf.class + " leaf without an absolute bound: " + lf.why + " (" + valName(lf.v) + ")"
+		}
+	}
+	return true, ""
+}
+
+// sizeCapTable: allocations whose program-chosen size needs no absolute bound.
+var sizeCapTable = map[string]string{
+	"(*runtime.array).grow:make([]runtime.Value, n)":    "the new array size is computed by mixedTable.grow from the number of integer keys the table already holds (at most twice that), i.e. from memory already held",
+	"(*runtime.valuePool).get:make([]runtime.Value, n)": "besides Code.RegCount (int16) the size is GoFunction.nArgs, the arity a Go function was registered with: a compile-time constant of the host program",
+	"(runtime.valuePool).get:make([]runtime.Value, n)":  "noregpool build: as above",
+	"lib/stringlib.UnpackString:make([]byte, n)":        "zi - u.j with u.j <= zi <= len(u.pack): the scan loop stops at the end of the subject",
+}
+
+func ruleSizeCap(c *Ctx) *RuleResult {
+	r := newResult("R-SIZECAP", "a charge is not a bound: in a context without a memory limit the Require* calls and the private budgets are no-ops, so an allocation whose size the program chooses (or input data dictates) must also be compared, on every path, with a constant or with a length already held — otherwise a large enough argument makes make/Grow/Repeat panic ('len out of range', which no pcall catches) or exhaust memory (fatal). Sizes all of whose leaves are bounded by memory already held pass; parameters are resolved through all callers")
+	p := c.P
+	sinks := findAllocSinks(p)
+	r.count("computed_size_allocations", len(sinks))
+	r.floor("computed_size_allocations", 20)
+	for _, s := range sinks {
+		key := fnKey(s.f) + ":" + s.what
+		ok, why := judgeAbs(p, s.f, s.size, s.ins, 0)
+		if ok {
+			r.ok(fmt.Sprintf("%s %s [%s]: bounded by memory already held or by an explicit limit", fnKey(s.f), s.what, p.InstrPos(s.ins)))
+			continue
+		}
+		if e, ok := sizeCapTable[key]; ok {
+			r.ok("table: " + key + " — " + e)
+			continue
+		}
+		r.fail("unbounded-size:"+key, p.InstrPos(s.ins), fmt.Sprintf("%s %s: the size is chosen by the program (or read from input) and is compared with no constant and no held length on some path to the allocation (%s); charging it to the quota does not bound it when the context has no memory limit: a large enough value is a Go panic or a fatal out-of-memory", fnKey(s.f), s.what, why))
+	}
+	return r
+}
